@@ -289,11 +289,25 @@ func ruleR083(c *Ctx) {
 		info := pkg.TypesInfo
 		for _, f := range pkg.Syntax {
 			ast.Inspect(f, func(x ast.Node) bool {
-				lit, ok := x.(*ast.FuncLit)
-				if !ok || lit.Type.Params == nil || len(lit.Type.Params.List) != 1 || len(lit.Type.Params.List[0].Names) != 1 {
+				var lit ast.Node
+				var litType *ast.FuncType
+				var litBody *ast.BlockStmt
+				switch t := x.(type) {
+				case *ast.FuncLit:
+					lit, litType, litBody = t, t.Type, t.Body
+				case *ast.FuncDecl:
+					// push iterators written as methods: func (m MergeMap) Iter(yield func(string, Value) bool)
+					if t.Body == nil {
+						return true
+					}
+					lit, litType, litBody = t, t.Type, t.Body
+				default:
 					return true
 				}
-				yobj := info.Defs[lit.Type.Params.List[0].Names[0]]
+				if litType.Params == nil || len(litType.Params.List) != 1 || len(litType.Params.List[0].Names) != 1 {
+					return true
+				}
+				yobj := info.Defs[litType.Params.List[0].Names[0]]
 				if yobj == nil || !isNamed(yobj.Type(), iterPath, "Consumer") {
 					// func(yield func(...) bool) producers
 					sig, isSig := yobj.Type().Underlying().(*types.Signature)
@@ -303,7 +317,7 @@ func ruleR083(c *Ctx) {
 					if b, isB := sig.Results().At(0).Type().Underlying().(*types.Basic); !isB || b.Kind() != types.Bool {
 						return true
 					}
-					if lit.Type.Results != nil && len(lit.Type.Results.List) > 0 {
+					if litType.Results != nil && len(litType.Results.List) > 0 {
 						return true // helper with a result, e.g. flatten: handled by its own return discipline
 					}
 				}
@@ -313,11 +327,81 @@ func ruleR083(c *Ctx) {
 					if !ok {
 						return false
 					}
-					id, ok := ast.Unparen(call.Fun).(*ast.Ident)
-					return ok && info.ObjectOf(id) == yobj
+					if id, ok := ast.Unparen(call.Fun).(*ast.Ident); ok && info.ObjectOf(id) == yobj {
+						return true
+					}
+					// a helper that receives the consumer and returns its answer
+					for _, a := range call.Args {
+						if id, ok := ast.Unparen(a).(*ast.Ident); ok && info.ObjectOf(id) == yobj {
+							if tv, ok := info.Types[call]; ok {
+								if b, ok := tv.Type.Underlying().(*types.Basic); ok && b.Kind() == types.Bool {
+									return true
+								}
+							}
+						}
+					}
+					return false
 				}
 				k := 0
-				inspectNoLit(lit.Body, func(y ast.Node) bool {
+				// delegations: the consumer is handed to another iterator (X.Iter(yield)); what that iteration answered is
+				// not known afterwards, so nothing may be produced after a delegation
+				handsOn := func(call *ast.CallExpr) bool {
+					for _, a := range call.Args {
+						if id, ok := ast.Unparen(a).(*ast.Ident); ok && info.ObjectOf(id) == yobj {
+							return true
+						}
+					}
+					return false
+				}
+				// a delegation proper has no result (X.Iter(yield)); a helper that returns the consumer's answer as a bool
+				// (flatten(v, nil, yield)) is treated like a call of the consumer itself; anything else (a helper that
+				// starts goroutines and returns a channel) is not an iteration
+				isDelegation := func(y ast.Node) bool {
+					call, ok := y.(*ast.CallExpr)
+					if !ok || !handsOn(call) {
+						return false
+					}
+					tv, ok := info.Types[call]
+					if !ok {
+						return false
+					}
+					if tup, isTuple := tv.Type.(*types.Tuple); isTuple {
+						return tup.Len() == 0
+					}
+					return false
+				}
+				dk := 0
+				inspectNoLit(litBody, func(y ast.Node) bool {
+					if !isDelegation(y) {
+						return true
+					}
+					call := y.(*ast.CallExpr)
+					dk++
+					n++
+					key := fmt.Sprintf("%s#delegation[%d]", c.FuncName(lit)+litSuffix(c, lit), dk)
+					// the answer of the delegated iteration is returned
+					if _, isRet := c.Parent(call).(*ast.ReturnStmt); isRet {
+						c.OK(key, call.Pos(), "the result of the delegated iteration is returned")
+						return true
+					}
+					blk, idx, ok := g.Pos(call)
+					if !ok {
+						c.OK(key, call.Pos(), "unreachable")
+						return true
+					}
+					node := blk.Nodes[idx]
+					again, _ := g.PathAvoiding(node, func(z ast.Node) bool { return containsNode(z, isYieldCall) || containsNode(z, isDelegation) }, nil)
+					if !again {
+						again, _ = g.PathAvoiding(node, func(z ast.Node) bool { return z == node }, nil)
+					}
+					if again {
+						c.Violation(key, call.Pos(), "the consumer is handed to another iterator (%s) and the producer goes on producing afterwards: whether the consumer has stopped during the delegated iteration is not known, so it may be called again after it answered false (elements behind the decisive one are produced; a range-over-func loop body that is called again after it returned false panics)", nodeStr(c.Fset, call.Fun))
+					} else {
+						c.OK(key, call.Pos(), "the delegation is the last thing the producer does")
+					}
+					return true
+				})
+				inspectNoLit(litBody, func(y ast.Node) bool {
 					if !isYieldCall(y) {
 						return true
 					}
@@ -356,6 +440,15 @@ func ruleR083(c *Ctx) {
 								}
 							case *ast.BinaryExpr:
 								a, b := tri(t.X), tri(t.Y)
+								// the call was evaluated: operands to its left let the evaluation go on (short circuit)
+								if containsNode(t.Y, func(z ast.Node) bool { return z == ast.Node(call) }) {
+									switch t.Op {
+									case token.LAND:
+										a = 1
+									case token.LOR:
+										a = 0
+									}
+								}
 								switch t.Op {
 								case token.LOR:
 									if a == 1 || b == 1 {
@@ -830,4 +923,119 @@ func ruleR085(c *Ctx) {
 		return
 	}
 	c.OK("value#producer-loops", token.NoPos, "%d loops over producers examined, %d of them can drop a pulled element on an element independent exit", nLoops, nExits)
+}
+
+// ---------------------------------------------------------------------------
+// R08.6 generated code does not consume lists.
+//
+// The closures that the generator functions return are the code of the
+// language constructs (let, if, try/catch, operators, calls...). They hand
+// list values on as they are; only built-ins that are documented to consume
+// (and list access by index) iterate a list. A consuming call (Eval, ToSlice,
+// Size, a deep evaluation helper, ...; the set is derived from the source as
+// for R08.1) inside a generated closure of a construct makes every program
+// that passes a lazy pipeline through that construct evaluate it completely,
+// whether or not a consumer ever asks for an element.
+
+func ruleR086(c *Ctx) {
+	la := c.listAnchors()
+	a := c.genAnchors()
+	if len(la.missing) > 0 || len(a.missing) > 0 {
+		c.Undecided(strings.Join(append(la.missing, a.missing...), ","), token.NoPos, "anchors not found")
+		return
+	}
+	if len(la.consuming) < 10 {
+		c.Undecided("value.List#consuming-methods", token.NoPos, "only %d consuming methods derived", len(la.consuming))
+		return
+	}
+	// plain functions of the value package that consume transitively (deepEvalLists)
+	vp := la.vp
+	consuming := map[*types.Func]bool{}
+	for k, v := range la.consuming {
+		consuming[k] = v
+	}
+	for changed := true; changed; {
+		changed = false
+		for _, f := range vp.Syntax {
+			for _, d := range f.Decls {
+				fd, ok := d.(*ast.FuncDecl)
+				if !ok || fd.Body == nil || fd.Recv != nil {
+					continue
+				}
+				obj, _ := vp.TypesInfo.Defs[fd.Name].(*types.Func)
+				if obj == nil || consuming[obj] {
+					continue
+				}
+				if containsNodeDeep(fd.Body, func(y ast.Node) bool {
+					call, ok := y.(*ast.CallExpr)
+					if !ok {
+						return false
+					}
+					cal := Callee(vp.TypesInfo, call)
+					return cal != nil && consuming[cal]
+				}) {
+					// only helpers that take a value of the language
+					takesValue := false
+					if fd.Type.Params != nil {
+						for _, p := range fd.Type.Params.List {
+							t := vp.TypesInfo.TypeOf(p.Type)
+							if isNamed(t, modPath+"/value", "Value") || isNamed(t, modPath+"/value", "List") {
+								takesValue = true
+							}
+						}
+					}
+					if takesValue {
+						consuming[obj] = true
+						changed = true
+					}
+				}
+			}
+		}
+	}
+	fwd := c.forwarders(a)
+	nLit := 0
+	for _, gi := range c.generatorFuncs(a, fwd) {
+		if strings.Contains(gi.pkg.PkgPath, "/example") || strings.HasSuffix(gi.pkg.PkgPath, "/gen") {
+			continue
+		}
+		info := gi.pkg.TypesInfo
+		gname := declName(gi.pkg, gi.decl)
+		k := 0
+		ast.Inspect(gi.decl.Body, func(x ast.Node) bool {
+			lit, ok := x.(*ast.FuncLit)
+			if !ok || lit.Type.Params == nil || len(lit.Type.Params.List) < 1 {
+				return true
+			}
+			hasStack := false
+			for _, p := range lit.Type.Params.List {
+				if a.isStack(info.TypeOf(p.Type)) {
+					hasStack = true
+				}
+			}
+			if !hasStack {
+				return true
+			}
+			nLit++
+			ast.Inspect(lit.Body, func(y ast.Node) bool {
+				call, ok := y.(*ast.CallExpr)
+				if !ok {
+					return true
+				}
+				cal := Callee(info, call)
+				if cal == nil || !consuming[cal] {
+					return true
+				}
+				k++
+				key := fmt.Sprintf("%s#generated-code-consumes[%d]:%s", gname, k, cal.Name())
+				c.Violation(key, call.Pos(), "the code generated for a language construct calls %s, which iterates a list: a lazy pipeline that merely passes through this construct is evaluated completely (every element closure runs, errors of elements nobody asks for are raised, an unbounded source never returns)", cal.Name())
+				return true
+			})
+			return false
+		})
+	}
+	if nLit < 20 {
+		c.Undecided("funcGen#generated-closures", token.NoPos, "only %d generated closures found", nLit)
+		return
+	}
+	c.OK("funcGen#generated-closures-do-not-consume", token.NoPos, "%d generated closures of language constructs examined against %d consuming functions: none iterates a list", nLit, len(consuming))
 }
